@@ -28,13 +28,15 @@ def worker_env(tmpdir=None):
 
 
 class Worker:
-    def __init__(self, variant="san", name="worker", timeout=20.0, extra_env=None):
+    def __init__(self, variant="san", name="worker", timeout=20.0, extra_env=None, prefix=None, drop_env=()):
         self.variant = variant
         self.path = os.path.join(WORK, "bin", "%s-%s" % (name, variant))
         self.timeout = timeout
         self.proc = None
         self.errf = None
         self.extra_env = extra_env or {}
+        self.prefix = list(prefix or [])
+        self.drop_env = tuple(drop_env)
         self.calls = 0
         self.restarts = 0
 
@@ -43,7 +45,9 @@ class Worker:
         self.errf = tempfile.TemporaryFile(dir=os.path.join(WORK, "scratch") if os.path.isdir(os.path.join(WORK, "scratch")) else None)
         env = worker_env()
         env.update(self.extra_env)
-        self.proc = subprocess.Popen([self.path], stdin=subprocess.PIPE, stdout=subprocess.PIPE, stderr=self.errf,
+        for k in self.drop_env:
+            env.pop(k, None)
+        self.proc = subprocess.Popen(self.prefix + [self.path], stdin=subprocess.PIPE, stdout=subprocess.PIPE, stderr=self.errf,
                                      env=env, bufsize=0)
         self.restarts += 1
 
